@@ -18,8 +18,10 @@ CLAIMS = {
              "with the written sense; key uniqueness preserved. The model (Model/Dict.v, Model/Terms.v) is tied to PEPit's "
              "operators by exact differential comparison on seeded random trees.",
         ref="DESIGN.md 5.6",
-        note="hand-written model tied by correspondence; no-mutation and operand-kind clauses are tested on the "
-             "implementation, not proved",
+        note="hand-written model tied by correspondence; the no-mutation clause is a generated obligation over the source "
+             "(translator/tr_purity.py -> Gen/Purity.v, C06_operators_do_not_write_operands: conservative alias analysis of every "
+             "operator method, the constructors and the dictionary helpers, fail-closed) and is also tested, containers handed to "
+             "PSDMatrix included; the operand-kind clause is tested on the implementation (exhaustive table), not proved",
         technique="Coq proof (induction over DSL trees) + model/implementation correspondence"),
     "C01": dict(
         text="Coq theorems: for every interleaving of scalar constraints and LMIs of any sizes the cvxpy emission / dual "
@@ -48,7 +50,9 @@ CLAIMS = {
              "trace does not increase (given solver optimality); option strings dispatch as documented. Tie: translator + "
              "scripted-solver correspondence of wrapper calls and cvxpy problems before/after the heuristic; real SCS pairs.",
         ref="DESIGN.md 5.14",
-        note="solver optimality for the trace clause is an explicit hypothesis; eigenvalue thresholding and matrix inverse "
+        note="the public entry PEP.solve is regenerated too (translator/tr_entry.py -> Gen/Entry.v): every option reaches "
+             "_solve_with_wrapper unchanged under its own name with equal constant defaults (C14_options_travel_unchanged); "
+             "solver optimality for the trace clause is an explicit hypothesis; eigenvalue thresholding and matrix inverse "
              "are numpy (they only influence W and printed diagnostics); MOSEK side inherits F-C11b",
         technique="Coq proof over a plan regenerated from the source + scripted-solver correspondence"),
     "C02": dict(
@@ -119,7 +123,8 @@ CLAIMS = {
              "solver input. Tie: translators + byte-identical comparison of recorded solver input, fresh interpreter vs. "
              "after random histories (solved / failed / abandoned / raising models), verbose 0/1/2.",
         ref="DESIGN.md 5.12",
-        note="the step from equal class-level state to equal solver input for full programs rests on the history stream "
+        note="every read of the module-level null objects inside PEPit is regenerated and must be an accumulator start or an "
+             "operand (C12_null_objects_do_not_escape); the step from equal class-level state to equal solver input for full programs rests on the history stream "
              "(the pipeline itself is C05/C06/C07)",
         technique="Coq proof (finite generated obligations + non-interference by induction) + history correspondence"),
     "C16": dict(
@@ -130,7 +135,8 @@ CLAIMS = {
              "ValueError. Tie: translator + malformed stream (every accessor on every object kind in 7 states, unbounded and "
              "infeasible models, invalid options) compared with the model's predicted outcome class.",
         ref="DESIGN.md 5.16",
-        note="only the class of an outcome is modelled; F-C16b (= F-C11d: the MOSEK path returns a number for infeasible / "
+        note="PEP.solve forwards the option strings unchanged to the dispatches (C16_options_reach_dispatch, plan regenerated by "
+             "translator/tr_entry.py); only the class of an outcome is modelled; F-C16b (= F-C11d: the MOSEK path returns a number for infeasible / "
              "unbounded models) observed on the stand-in only",
         technique="Coq proof over handler shapes regenerated from the source + malformed-input correspondence"),
     "C13": dict(
